@@ -37,3 +37,13 @@ theorem sum_map_add_const (l : List ℝ) (c : ℝ) :
   | cons x xs ih => simp [ih]; ring
 
 end ModelR
+
+namespace ModelR
+
+@[simp] theorem Mat3.memo_eq (A : Mat3) : Mat3.memo A = A := by
+  funext i j; fin_cases i <;> fin_cases j <;> rfl
+
+@[simp] theorem Vec3.memo_eq (v : Vec3) : Vec3.memo v = v := by
+  funext i; fin_cases i <;> rfl
+
+end ModelR
